@@ -864,7 +864,7 @@ func main() {
 		},
 		Cases: func(tier string) int {
 			if tier == "thorough" {
-				return 100000
+				return 40000
 			}
 			return 2000
 		},
